@@ -84,7 +84,7 @@ class GlobalGenMonitor(Monitor):
 
     def on_trial(self, w, name, verdict, pre, post):
         self.events.append(("trial", name, repr(verdict), _h(post["positions"], post["cellarr"], w.atoms.numbers,
-                                                                repr(post["last_e"]))))
+                                                                repr(post["last_e"])), int(post["n"])))
 
     def on_step_end(self, w):
         self._compare(w, "step")
@@ -241,8 +241,16 @@ class C06(HistoryCampaign):
             return res.pack()
         # different seeds must differ - judged on runs whose digest depends on drawn numbers at all
         # (the configuration changed at least twice - constraints or all-negative labels can freeze a run)
-        random_dependent = len({e[3] for e in a["events"] if e[0] == "trial"}) >= 3 or \
-            len({e[2] for e in a["events"] if e[0] == "fbstep"}) >= 2
+        # ... through continuously distributed numbers: deletions only pick one of a few labels, two seeds can
+        # coincide on them by chance; count configuration changes that did not shrink the system
+        cont = 0
+        prev = None
+        for e in a["events"]:
+            if e[0] == "trial":
+                if prev is not None and e[3] != prev[3] and e[4] >= prev[4]:
+                    cont += 1
+                prev = e
+        random_dependent = cont >= 2 or len({e[2] for e in a["events"] if e[0] == "fbstep"}) >= 2
         if random_dependent:
             sc2 = copy.deepcopy(sc)
             sc2["seed"] = sc["seed"] + 1
